@@ -93,7 +93,9 @@ static JVal protocol_unmarshal(const std::string& kind, bool comp, bool checked,
         GUARDED_CALL(fault, rep2 = embedded_pairing_wkdibe_secretkey_unmarshalled_length(in.p, n, comp));
         GUARDED_CALL(fault, rep = embedded_pairing_wkdibe_secretkey_set_length(&K.k, in.p, n, comp));
         r.set("rep", (long long) rep); r.set("rep2", (long long) rep2);
-        if (!fault && rep >= 0) {
+        // a reported slot count that an n-byte buffer cannot hold is recorded and judged by the specification; the harness does not
+        // try to allocate it (a real caller would)
+        if (!fault && rep >= 0 && (size_t) rep <= n) {
             K.alloc(rep);
             GUARDED_CALL(fault, ok = embedded_pairing_wkdibe_secretkey_unmarshal(&K.k, in.p, comp, checked));
             if (!fault && ok) {
@@ -109,7 +111,7 @@ static JVal protocol_unmarshal(const std::string& kind, bool comp, bool checked,
         GUARDED_CALL(fault, rep2 = embedded_pairing_wkdibe_params_unmarshalled_length(in.p, n, comp));
         GUARDED_CALL(fault, rep = embedded_pairing_wkdibe_params_set_length(&P.p, in.p, n, comp));
         r.set("rep", (long long) rep); r.set("rep2", (long long) rep2);
-        if (!fault && rep >= 0) {
+        if (!fault && rep >= 0 && (size_t) rep <= n) {
             P.alloc(rep);
             GUARDED_CALL(fault, ok = embedded_pairing_wkdibe_params_unmarshal(&P.p, in.p, comp, checked));
             if (!fault && ok) {
